@@ -174,6 +174,7 @@ fn main() {
         "explore" => explore(&args),
         "kernels" => props::c11::run(&args),
         "bq" => props::c12::run(&args),
+        "faults" => props::c10::run(&args),
         "ids" => props::c13::run(&args),
         other => {
             eprintln!("unknown command {other:?}");
